@@ -543,6 +543,13 @@ func (e *Env) index(n *EIndex) (Val, types.Type) {
 		}
 	}
 	v, t := e.evalT(n.X)
+	if t != nil {
+		if _, isMap := t.Underlying().(*types.Map); isMap {
+			ma := e.r.mapArrsOf(t)
+			val, _ := e.r.mapLookupTerms(e.st, ma, v.(Term), e.evalTerm(n.I))
+			return val, ma.vt
+		}
+	}
 	i := e.evalTerm(n.I)
 	i64 := Term{Resize(i, 64, i.Sort.Signed).S, BV(64, false)}
 	switch x := v.(type) {
@@ -701,6 +708,15 @@ func (e *Env) call(n *ECall) (Val, types.Type) {
 		}
 		a := argT(1)
 		return Term{a.S, BV(64, false)}, types.NewPointer(obj.Type())
+	case "has":
+		// has(m, k): key k is present in map m
+		mv, mt := e.evalT(n.Args[0])
+		if mt == nil {
+			e.fail("has(): first argument must be a map-typed expression")
+		}
+		ma := e.r.mapArrsOf(mt)
+		_, h := e.r.mapLookupTerms(e.st, ma, mv.(Term), argT(1))
+		return h, nil
 	case "mention":
 		// mention(t): a trivially true atom (mention_S t) - mention_S is declared
 		// with the axiom "forall x. mention_S x" - that keeps the ground term t
